@@ -1,6 +1,7 @@
 import Driver.Util
 import Mtv.Session.Store
 import Mtv.Session.Start
+import Mtv.Session.Cut
 import Mtv.Crypto.Sha1
 namespace Driver.C12
 open Mtv Mtv.Session Driver
@@ -203,6 +204,20 @@ def handle : List String → String
         | .err e => "err:" ++ e
         | .panic q => "panic:" ++ q
     | none => "bad-op"
+  -- a `Store` of the newer session cut by the operating system at every byte 0 … n, an older session at the path:
+  -- the file the model's write leaves (`cutWrite`: truncate, then front to back), read and classified against the
+  -- two stored sessions; `Store` reports an error at every cut before the end
+  | ["c12.cut", sh, pre, so, sn] =>
+    match parseSess? so, parseSess? sn with
+    | some o, some n =>
+      if ¬ (sh = "abs" ∨ sh = "rel" ∨ sh = "dotrel" ∨ sh = "bare") ∨ ¬ (pre = "0" ∨ pre = "1") then "bad-op" else
+      let oldF := writeSession o
+      let newF := writeSession n
+      let cls := (List.range (newF.length + 1)).map fun k => classifyCut o n (cutWrite oldF newF k)
+      let cnt (c : CutClass) : Nat := (cls.filter (· == c)).length
+      let line := s!"error:{cnt .error},older:{cnt .older},newer:{cnt .newer},third:{cnt .third}"
+      s!"n={newF.length} cuts={newF.length + 1} storefail={newF.length} same={line} fresh={line} first=-"
+    | _, _ => "bad-op"
   | ["c12.cfg", kind, state, file, sa, sb] =>
     match parseSess? sa, parseSess? sb with
     | some a, some b =>
